@@ -468,12 +468,12 @@ impl ValueType {
             ValueType::Array(_) => None,
             ValueType::Timestamp => {
                 // A local time that does not exist in the time zone (daylight saving gap) is not a timestamp,
-                // an ambiguous one (overlap) is taken as the earlier of the two
+                // an ambiguous one (overlap) is taken as the later of the two, as by create_timestamp
                 // Second 60 is chrono's notation for a leap second, not a time of day
                 NaiveDateTime::parse_from_str(value_str, "%Y-%m-%d %H:%M:%S")
                     .ok()
                     .filter(|x| x.nanosecond() < 1_000_000_000)
-                    .and_then(|x| Local {}.from_local_datetime(&x).earliest())
+                    .and_then(|x| Local {}.from_local_datetime(&x).latest())
                     .map(|x| Value::Timestamp(x))
             }
             ValueType::Interval => {
